@@ -5,6 +5,7 @@
  R2 no other edges: only GraphBuilder methods add nodes/edges to a CFG
  R3 untaken-conditional marking reaches Edge::Jump unchanged
  R4 completeness loops and build order; one node pair per (block, sub)
+ R2+ (added after seed C08c) every insertion into GraphBuilder.extern_subs takes its key from program.extern_symbols
 """
 from .lib import slots as SL
 from .lib import sym as S
